@@ -8,6 +8,7 @@ from twisted.internet.task import Clock
 from twisted.python.failure import Failure
 
 from afkak.common import (
+    OFFSET_COMMITTED,
     OFFSET_EARLIEST,
     OFFSET_LATEST,
     ConsumerFetchSizeTooSmall,
@@ -17,6 +18,7 @@ from afkak.common import (
     Message,
     OffsetAndMessage,
     OffsetOutOfRangeError,
+    OffsetFetchResponse,
     OffsetResponse,
     RequestTimedOutError,
     UnknownTopicOrPartitionError,
@@ -85,7 +87,9 @@ def jobs(tier):
     q = tier == "quick"
     out = []
     for dl in ((0.1, 30.0), (1.0, 1.5), (20.0, 30.0)):
-        for start in ("num", "earliest"):
+        for start in ("num", "earliest", "committed"):
+            if start == "committed" and dl != (1.0, 1.5) and q:
+                continue
             out.append({"fam": "retry", "delays": dl, "start": start, "P": 5 if q else 8, "Lmax": 4 if q else 6})
     for policy in (None, OFFSET_EARLIEST, OFFSET_LATEST):
         for lim in (0, 2):
@@ -123,14 +127,15 @@ def _retry(job):
         clock = Clock()
         client = ContractClient(ctx, clock)
         calls = []
+        gkw = dict(consumer_group="g", auto_commit_every_n=0, auto_commit_every_ms=0) if job["start"] == "committed" else {}
         consumer = Consumer(
-            client, TOPIC, PART, lambda c, m: calls.append(m), request_retry_init_delay=init, request_retry_max_delay=mx
+            client, TOPIC, PART, lambda c, m: calls.append(m), request_retry_init_delay=init, request_retry_max_delay=mx, **gkw
         )
         L = ctx.int("limit", 0, job["Lmax"])
         consumer.request_retry_max_attempts = L
         ctx.sig("retry delays=%s start=%s" % (job["delays"], job["start"]))
         res = []
-        consumer.start(1000 if job["start"] == "num" else OFFSET_EARLIEST).addBoth(res.append)
+        consumer.start({"num": 1000, "earliest": OFFSET_EARLIEST, "committed": OFFSET_COMMITTED}[job["start"]]).addBoth(res.append)
         exp_delay = float(init)  # oracle's copy of the back-off state
         cf = 0  # consecutive failed attempts
         for step in range(job["P"]):
@@ -145,6 +150,13 @@ def _retry(job):
             if k == 3:  # success
                 cf = 0
                 exp_delay = float(init)
+                if p.kind == "offset_fetch":
+                    # the group's committed position: a real offset, or "nothing committed yet" (-1), after which the consumer
+                    # must look up the earliest/latest offset -- either way this request succeeded
+                    none_yet = ctx.choose("nothing_committed", 2) == 1
+                    client.resolve(p, [OffsetFetchResponse(TOPIC, PART, -1 if none_yet else 41, b"", 0)])
+                    ctx.check(bool(client.outstanding("offset" if none_yet else "fetch")), "fetch-follows-offset-resolution", "after the committed-offset answer (none=%s) outstanding: %r" % (none_yet, [x.kind for x in client.pending]))
+                    continue
                 if p.kind == "offset":
                     client.resolve(p, [OffsetResponse(TOPIC, PART, 0, (7,))])
                     # consumer fetches straight away (no timer)
